@@ -23,6 +23,9 @@ import os
 import regex_ast
 
 
+OUTPUTS = ['SqlLex.lean']
+
+
 def _lean_str(s):
     out = []
     for ch in s:
